@@ -147,6 +147,12 @@ fn documents(thorough: bool) -> Vec<String> {
         docs.push(format!("{{\"x\": {}}}", s));
         docs.push(format!("{{\"x\": {{{}: {}}}}}", s, s));
     }
+    // the reserved key at the *top level* of a document, next to ordinary members: the top-level object is
+    // the record of input names, not a value
+    for f in ["\"x => x\"", "\"sum\"", "\"(a, b) => a\"", "5", "\"not a function\"", "null"] {
+        docs.push(format!("{{\"__blots_function\": {}, \"x\": [5, \"d\"]}}", f));
+        docs.push(format!("{{\"x\": {{\"deep\": 1}}, \"__blots_function\": {}}}", f));
+    }
     // sizes small alphabets never reach: wide records, long lists, deep nesting, long keys and strings
     for n in if thorough { vec![9usize, 17, 33, 65, 257, 1025] } else { vec![17, 65, 257] } {
         let rec: Vec<String> = (0..n).map(|i| format!("\"k{}\": {}", (i * 7 + 3) % (n + 1), if i % 3 == 0 { "null".to_string() } else { format!("{}.5", i) })).collect();
@@ -351,7 +357,8 @@ pub fn run(ctx: &Ctx, replay: Option<&J>) -> i32 {
                     ctx.violation(Violation { kind: "cli-chain-unstable".into(), class: "cli".into(), input: doc.clone(), expected: out1.clone(), observed: out2.clone(), case: json!({"doc": doc}) });
                 }
                 if let Some(p) = &parsed {
-                    if contains_reserved(p) || !representable {
+                    // (only the member x is echoed: the reserved key matters where it sits inside x)
+                    if p.get("x").map(contains_reserved).unwrap_or(false) || !representable {
                         continue;
                     }
                     // expected document: {"x": <inputs.x or null>}
